@@ -2,7 +2,7 @@
 from __future__ import annotations
 import ast
 from typing import List, Dict, Optional, Tuple
-from ..model import Model, FuncInfo, own_nodes, norm_stmt, AnalysisError, AnchorError, enclosing_stmt, ancestors, has_form
+from ..model import Model, FuncInfo, own_nodes, norm_stmt, AnalysisError, AnchorError, enclosing_stmt, ancestors, has_form, under, path_conditions
 from ..report import RuleResult
 from ..flow import function_defs, names_loaded
 from ..cfg import CFG, stmt_dominates
@@ -446,17 +446,18 @@ def _davidson(model: Model, D: RuleResult):
     okq = len(qr) == 2
     for c in qr:
         st = enclosing_stmt(c)
-        under_m = any(isinstance(a, ast.If) and ast.unparse(a.test) == "%s is not None" % pM and st in a.body for a in ancestors(c))
+        under_m = under(st, "%s is not None" % pM)
         kw = {k.arg: ast.unparse(k.value) for k in c.keywords}
         if under_m:
             mv = kw.get("MV")
             d = None
             for a in ancestors(c):
                 if isinstance(a, ast.If):
-                    for b in a.body:
+                    for b in (a.body if st in a.body else a.orelse):
                         if isinstance(b, ast.Assign) and ast.unparse(b.targets[0]) == mv:
-                            d = ast.unparse(b.value)
-            okq = okq and d == "%s.mm(%s)" % (pM, ast.unparse(c.args[0]))
+                            d = b.value
+                    break
+            okq = okq and d is not None and has_form(d, "%s.mm(%s)" % (pM, ast.unparse(c.args[0])))
         else:
             okq = okq and not kw
     if okq:
